@@ -453,6 +453,17 @@ def check_frame(name, acc, sent_worlds):
                 out.append((f'C04|frame|D*|serial-missing', f'{name}: sentence worlds {sorted(sent_worlds)}, access {acc}: '
                             f'world {w} carries a sentence but gets no successor (result {sorted(got)})'))
                 break
+        # the other direction: an added pair asks for more than seriality gives unless it leads to a world of its own
+        added = sorted(got - set(acc))
+        for (x, y) in added:
+            if y in worlds:
+                out.append((f'C04|frame|D*|serial-reuses-world', f'{name}: sentence worlds {sorted(sent_worlds)}, access {acc}: added {x}->{y}, '
+                            f'but {y} is an existing world: seriality does not make it a successor of {x}'))
+                break
+        succ = [y for _, y in added]
+        if len(succ) != len(set(succ)):
+            out.append((f'C04|frame|D*|serial-shared-successor', f'{name}: sentence worlds {sorted(sent_worlds)}, access {acc}: added {added}: '
+                        f'two worlds were given the same successor, which seriality does not provide'))
         return out
     want = R.closure(frame, worlds, acc)
     if got != want:
